@@ -411,6 +411,8 @@ def iter_len_and_get(I: Interp, it):
 
 def havoc_value(I: Interp, v, hint):
     """A fresh value of the same shape as v."""
+    if isinstance(v, Obj) and v.rec is None and any(callable(x) for x in v.fields.values()):
+        return v  # a policy object: its state lives in ghost variables (havoced separately)
     if isinstance(v, SList):
         ty = v.ty
         nv = fresh_value(I.ctx, ty, hint)
@@ -565,12 +567,16 @@ def cut_loop(I: Interp, st, env: Env, spec, ordn, it):
         dec0 = None
         if spec.decreases:
             dec0 = zint(V.eval_clause(I, env, spec.decreases))
+        for gname, gval in spec.iter_init.items():
+            I.ghost[gname] = gval
         try:
             exec_block(I, st.body, env)
         except BreakSig:
             return  # continues after the loop with the state at the break
         except ContinueSig:
             pass
+        for label, expr in spec.iter_post.items():
+            V.check_clause(I, env, "iter-post", f"loop{ordn}.{label}", expr)
         if is_for:
             env.set(idx, SV(z3.simplify(k + 1), INT))
         check_inv("inv-preserved")
